@@ -163,6 +163,62 @@ ImplAll(node) == IF node.kind = "leaf" THEN node.ents
                  ELSE IF node.kind = "inner" THEN ImplAllKids(node.kids, 1) ELSE <<>>
 ImplAllKids(kids, i) == IF i > Len(kids) THEN <<>> ELSE ImplAll(kids[i]) \o ImplAllKids(kids, i + 1)
 
+(* streaming.go yieldFromNode with a consumer that stops: the consumer's    *)
+(* yield function returns FALSE from its k-th call on (k >= 1); a leaf      *)
+(* hands that on at once, an intermediate node returns FALSE as soon as a   *)
+(* kid did.  The operators return <<everything yield was called with,       *)
+(* result of yieldFromNode>>; calls after the stop show up as a sequence    *)
+(* longer than k.                                                           *)
+RECURSIVE ImplYieldNode(_, _, _)
+RECURSIVE ImplYieldEnts(_, _, _, _)
+RECURSIVE ImplYieldKids(_, _, _, _)
+ImplYieldNode(node, out, k) ==
+  IF node.kind = "leaf" THEN ImplYieldEnts(node.ents, 1, out, k)
+  ELSE IF node.kind = "inner" THEN ImplYieldKids(node.kids, 1, out, k)
+  ELSE <<out, TRUE>>
+ImplYieldEnts(ents, i, out, k) ==
+  IF i > Len(ents) THEN <<out, TRUE>>
+  ELSE LET out2 == Append(out, ents[i])
+       IN IF Len(out2) >= k THEN <<out2, FALSE>>            \* yield returned false
+          ELSE ImplYieldEnts(ents, i + 1, out2, k)
+ImplYieldKids(kids, i, out, k) ==
+  IF i > Len(kids) THEN <<out, TRUE>>
+  ELSE LET r == ImplYieldNode(kids[i], out, k)
+       IN IF r[2] THEN ImplYieldKids(kids, i + 1, r[1], k)
+          ELSE IF Variant = "yieldBreak" THEN <<r[1], TRUE>>  \* seeded defect: "break", then "return true"
+          ELSE <<r[1], FALSE>>
+\* All() consumed by a loop that stops at its k-th entry
+ImplAllStop(node, k) == ImplYieldNode(node, <<>>, k)[1]
+\* Ref: such a consumer sees exactly the first k entries (all of them if there are fewer)
+RefPrefix(all, k) == SubSeq(all, 1, IF k < Len(all) THEN k ELSE Len(all))
+
+(* pdf.Writer.Put serialises an object at once - unless a stream is open on *)
+(* the writer: then the object is queued and serialised when the stream is  *)
+(* closed.  The tree writer never touches a dictionary after Put, so the    *)
+(* file shows the same nodes either way.  Variant "leafBufReuse" (a seeded  *)
+(* defect, negative control) builds every leaf array in one scratch buffer: *)
+(* queued leaves then all show the buffer's final contents.                 *)
+RECURSIVE LeavesOf(_)
+RECURSIVE LeavesOfKids(_, _)
+LeavesOf(node) == IF node.kind = "leaf" THEN <<node>>
+                  ELSE IF node.kind = "inner" THEN LeavesOfKids(node.kids, 1) ELSE <<>>
+LeavesOfKids(kids, i) == IF i > Len(kids) THEN <<>> ELSE LeavesOf(kids[i]) \o LeavesOfKids(kids, i + 1)
+RECURSIVE FinalBuf(_, _, _)
+FinalBuf(leaves, i, buf) ==
+  IF i > Len(leaves) THEN buf
+  ELSE LET e == leaves[i].ents
+       IN FinalBuf(leaves, i + 1, e \o SubSeq(buf, Len(e) + 1, Len(buf)))
+RECURSIVE Aliased(_, _)
+Aliased(node, buf) ==
+  IF node.kind = "leaf" THEN [node EXCEPT !.ents = SubSeq(buf, 1, Len(node.ents))]
+  ELSE IF node.kind = "inner" THEN [node EXCEPT !.kids = [i \in 1..Len(node.kids) |-> Aliased(node.kids[i], buf)]]
+  ELSE node
+\* what the file holds for a tree that was Put while streamOpen
+FileView(tree, streamOpen) ==
+  IF streamOpen /\ Variant = "leafBufReuse" /\ tree.kind = "inner"
+  THEN Aliased(tree, FinalBuf(LeavesOf(tree), 1, <<>>))
+  ELSE tree
+
 \* memory.go: extractFromNode fills a map (later entries overwrite), All sorts it
 RECURSIVE MapOfSeq(_, _)
 MapOfSeq(s, i) == IF i > Len(s) THEN << >> ELSE (s[i][1] :> s[i][2]) @@ MapOfSeq(s, i + 1)
